@@ -753,6 +753,49 @@ class _Spelling(ast.NodeTransformer):
         return node
 
 
+# ------------------------------------------------------------------------------------------------ (h) any / all / writelines
+
+def _expand_quantifiers(fn: ast.FunctionDef) -> list[str]:
+    """`if any(P(x) for x in xs): <exit>` -> `for x in xs: if P(x): <exit>` (and `not all(..)`), where <exit> always returns,
+    raises or exits, so that at most one element triggers it either way;  `f.writelines(E(x) for x in xs)` -> a loop of writes."""
+    done = []
+    for body in list(_bodies(fn)):
+        i = 0
+        while i < len(body):
+            st = body[i]
+            if isinstance(st, ast.If) and not st.orelse and _always_returns(st.body):
+                t, neg = st.test, False
+                if isinstance(t, ast.UnaryOp) and isinstance(t.op, ast.Not):
+                    t, neg = t.operand, True
+                if isinstance(t, ast.Call) and isinstance(t.func, ast.Name) and t.func.id in ('any', 'all') and len(t.args) == 1 and not t.keywords \
+                        and isinstance(t.args[0], (ast.GeneratorExp, ast.ListComp)) and len(t.args[0].generators) == 1 and ((t.func.id == 'any') != neg):
+                    g = t.args[0].generators[0]
+                    cond = t.args[0].elt if t.func.id == 'any' else ast.UnaryOp(op=ast.Not(), operand=t.args[0].elt)
+                    inner = ast.If(test=cond, body=st.body, orelse=[])
+                    for c in reversed(g.ifs):
+                        inner = ast.If(test=c, body=[inner], orelse=[])
+                    loop = ast.For(target=g.target, iter=g.iter, body=[inner], orelse=[])
+                    ast.copy_location(loop, st)
+                    ast.copy_location(inner, st)
+                    body[i] = loop
+                    done.append(_u(st.test)[:70])
+            elif isinstance(st, ast.Expr) and isinstance(st.value, ast.Call) and isinstance(st.value.func, ast.Attribute) and st.value.func.attr == 'writelines' \
+                    and len(st.value.args) == 1 and isinstance(st.value.args[0], (ast.GeneratorExp, ast.ListComp)) and len(st.value.args[0].generators) == 1:
+                ge = st.value.args[0]
+                g = ge.generators[0]
+                w = ast.Expr(value=ast.Call(func=ast.Attribute(value=st.value.func.value, attr='write', ctx=ast.Load()), args=[ge.elt], keywords=[]))
+                inner = [w]
+                for c in reversed(g.ifs):
+                    inner = [ast.If(test=c, body=inner, orelse=[])]
+                loop = ast.For(target=g.target, iter=g.iter, body=inner, orelse=[])
+                ast.copy_location(loop, st)
+                ast.copy_location(w, st)
+                body[i] = loop
+                done.append(_u(st)[:70])
+            i += 1
+    return done
+
+
 # ------------------------------------------------------------------------------------------------ (g) parallel assignments
 
 def _split_parallel(fn: ast.FunctionDef, known_stmts: set[str]) -> list[str]:
@@ -986,6 +1029,9 @@ def normalise(repo) -> dict:
             d = _hoist_walrus(fi.node)
             if d:
                 log.setdefault(q, []).extend(f'assignment expression hoisted: {x}' for x in d)
+            d = _expand_quantifiers(fi.node)
+            if d:
+                log.setdefault(q, []).extend(f'quantifier / writelines expanded into a loop: {x}' for x in d)
             d = _split_parallel(fi.node, set(ref_funcs[key].get('parallel', [])))
             if d:
                 log.setdefault(q, []).extend(f'parallel assignment split: {x}' for x in d)
